@@ -291,7 +291,7 @@ pub fn gen_damaged(rng: &mut StdRng, tab: &[OpDesc]) -> (String, &'static str) {
     if kind == "sci_literal" {
         // a literal in the float grammar of Rust's FromStr but not in the number syntax of exmex (number followed by a
         // variable): alone (with blanks around it) or in place of the whole left / right operand of a binary operator
-        let lit = *["1e5", "2E3", "1e+5", "2.5e-3", "7e0", ".5e1", "1e-2", "3E+0", "4e1", "1.0e1"].choose(rng).unwrap();
+        let lit = *["1e5", "2E3", "1e+5", "2.5e-3", "7e0", "5e1", "1e-2", "3E+0", "4e1", "1.0e1"].choose(rng).unwrap();
         let pad = |rng: &mut StdRng| " ".repeat(rng.random_range(0..3));
         text = match rng.random_range(0..4) {
             0 | 1 => format!("{}{}{}", pad(rng), lit, pad(rng)),
